@@ -83,7 +83,7 @@ class Operator(Token):
     def update_name(self, tokens, stack):
         if self.name in '-+':
             from .operand import Operand
-            t = tokens[max(tokens.index(self) - 1, 0)]
+            t = tokens[max(len(tokens) - 2, 0)]  # The token before this one.
             b = isinstance(t, Parenthesis) and t.has_end
             b |= isinstance(t, Operator) and t.name == '%'
             if not (b or isinstance(t, Operand)):
@@ -94,7 +94,7 @@ class Operator(Token):
         super(Operator, self).ast(tokens, stack, builder)
         self.update_name(tokens, stack)
         if (self.get_n_args == 2 or self.name == '%') and isinstance(
-                tokens[max(tokens.index(self) - 1, 0)], Separator
+                tokens[max(len(tokens) - 2, 0)], Separator
         ):  # E.g., `=SUM(1,*2)` or `=SUM(1,%)`: the left operand is missing.
             raise FormulaError()
         pred = self.pred
